@@ -355,6 +355,15 @@ def run(cx, rep):
     rep.floor("C07.9", "parameterless functions returning the list of an enum's values", n79, 2)
     # ---------------------------------------------------------------- C07.11
     keyof_duality_rule(cx, rep, "C07.11")
+    # ---------------------------------------------------------------- C07.13 (= C11.8)
+    optional_part_rule(cx, rep, "C07.13")
+    # ---------------------------------------------------------------- C07.12 (= C08.10)
+    # every materialised clause of a semantic result ends in the intersection constructor: what it merges into ONE
+    # object must denote the intersection, and an object with declared keys next to an index signature does not
+    # (the runtime applies an index signature to the undeclared keys only)
+    rep.rule("C07.12", "the intersection constructor the materialiser ends in never merges an index signature into an object with declared keys (= C08.10)")
+    from rules.c01 import lifted_rules
+    lifted_rules(cx, rep, "C07.12", (("rules.c08", "C08.10"),))
     # ---------------------------------------------------------------- C07.10
     rep.rule("C07.10", "a key looked up in the declared properties of an object is not answered without its index signature")
     declared_lookup_rule(cx, rep, "C07.10")
@@ -1051,3 +1060,60 @@ def _walk_inl_node(F, crate, node, depth, seen=None):
                 seen.add(tg)
                 for x, o in _walk_inl_node(F, crate, F.hir[tg]["body"], depth - 1, seen):
                     yield x, (o or tg)
+
+
+# ---------------------------------------------------------------------------------------------------- C07.13 = C11.8
+def optional_part_rule(cx, rep, rid):
+    """An atom of the semantic engine carries OPTIONAL parts (the index signature of an object atom, the rest element
+    of a list atom).  The materialiser writes such a part out under `if let Some(p) = <part>` / `match <part>`.
+    The part must be written whenever it is there: a predicate between the atom's field and that test (`filter`,
+    `take_if`, `and_then`, `then`, an extra condition on the VALUE of the part) drops it for some values - an index
+    signature `[k: string]: unknown` that disappears turns an open object into a closed one, which strict mode and
+    the hoist keys can tell apart.  Decided for the functions of to_schema.rs that read an `Option`-typed field of an
+    atom and build a Runtype from it: the scrutinee of the test, followed through let-bound locals, reaches the field
+    through `&`, `as_ref`, `as_deref`, `clone`, `as_mut` only."""
+    F = cx.rs
+    from facts import walk as hwalk
+    rep.rule(rid, "an optional part of an atom (index signature, rest element) is materialised whenever it is present")
+    thin = ("filter", "take_if", "and_then", "filter_map", "xor", "then", "then_some", "zip", "take", "map_or", "is_some_and")
+    n = 0
+    for g, t in sorted(F.hir.items()):
+        f = F.fns.get(g)
+        if f is None or not (f.file or "").endswith("subtyping/to_schema.rs") or f.kind == "Closure":
+            continue
+        lets = {x["pat"].get("lid"): x["init"] for x in hwalk(t["body"]) if x["k"] == "LetStmt" and x["pat"]["k"] == "P.Binding" and x.get("init") is not None}
+        def chain(e, depth=0):
+            """(atom field name or None, [method names on the way])"""
+            ms = []
+            while isinstance(e, dict):
+                k = e.get("k")
+                if k in ("AddrOf", "Deref", "DropTemps", "Unary"):
+                    e = e["e"]
+                elif k == "MethodCall":
+                    ms.append(e.get("method"))
+                    e = e["recv"]
+                elif k == "Path" and e.get("res") == "local" and e.get("lid") in lets and depth < 4:
+                    fld, m2 = chain(lets[e["lid"]], depth + 1)
+                    return fld, ms + m2
+                elif k == "Field" and "Option<" in (e.get("ty") or "") and ((e.get("adt") or "").endswith("AtomicType") or (e.get("adt") or "").endswith("ListAtomic")):
+                    return e["name"], ms
+                else:
+                    return None, ms
+            return None, ms
+        for x in hwalk(t["body"]):
+            scrut = None
+            if x["k"] == "If" and x["cond"].get("k") == "Let":
+                scrut = x["cond"]["init"]
+            elif x["k"] == "Match" and x.get("src") == "Normal" and (x.get("scrut_adt") or "").endswith("Option"):
+                scrut = x["scrut"]
+            if scrut is None:
+                continue
+            fld, ms = chain(scrut)
+            if fld is None:
+                continue
+            n += 1
+            bad = [m for m in ms if m in thin]
+            rep.ob(rid, "%s/%s" % (g.rsplit("::", 1)[-1], fld), not bad,
+                   "%s writes out the optional part `%s` of an atom only if it also passes `%s`: for the values the predicate rejects the part is silently left out of the materialised type (an index signature that disappears closes the object: strict mode then rejects keys the computed type admits)" % (g, fld, "`, `".join(bad)),
+                   "%s:%s" % (f.file, x.get("line")), sample={"fn": g, "part": fld, "adaptors_on_the_way": ms})
+    rep.floor(rid, "optional atom parts materialised in to_schema.rs", n, 1)
